@@ -15,6 +15,8 @@ func init() {
 	vfRegister("VfC04_doModify", VfC04_doModify)
 	vfRegister("VfC08_flushDecision", VfC08_flushDecision)
 	vfRegister("VfC04_history2", VfC04_history2)
+	vfRegister("VfC04_mixed4", VfC04_mixed4)
+	vfRegister("VfC04_mixed5", VfC04_mixed5)
 	vfRegister("VfC05_runElection3", VfC05_runElection3)
 	vfRegister("VfC04_doModify3", VfC04_doModify3)
 	vfRegister("VfC04_history3", VfC04_history3)
@@ -360,5 +362,56 @@ func vfC04History(k int) {
 	vfReach("end")
 }
 
+// vfC04Mixed: K steps, each either an election announcement (session A or B, arbitrary non-zero
+// 128-bit id) or ONE operation (session A or B, arbitrary stamp) - operations and announcements
+// interleave in every order (e.g. accepted operation, hand-over, stale operation).  After every
+// operation the RIB was reached iff the sender is the true primary and the stamp is its last id
+// and the highest id (computed by the harness).
+func vfC04Mixed(k int) {
+	s := &Server{cs: map[string]*clientState{}, masterRIB: rib.New(DefaultNetworkInstanceName)}
+	for _, c := range []string{"A", "B"} {
+		s.cs[c] = &clientState{params: &clientParams{ExpectElecID: true, Persist: true}, setParams: true}
+	}
+	has := false
+	var maxH, maxL uint64
+	primary := ""
+	lastSet := map[string]bool{}
+	lastH, lastL := map[string]uint64{}, map[string]uint64{}
+	ops := 0
+	for i := 0; i < k; i++ {
+		x := "A"
+		if vfBool("step.by-B") {
+			x = "B"
+		}
+		h, l := vfU64("step.hi"), vfU64("step.lo")
+		if vfBool("step.is-op") {
+			ops++
+			idx := uint64(100 + i)
+			resCh, errCh := make(chan *spb.ModifyResponse, 8), make(chan error, 8)
+			s.doModify(x, []*spb.AFTOperation{vfNHOp(uint64(i+1), DefaultNetworkInstanceName, idx, &spb.Uint128{High: h, Low: l})}, resCh, errCh)
+			legit := false
+			if has && lastSet[x] {
+				legit = vfAnd(x == primary, vfAnd(eq128(h, l, lastH[x], lastL[x]), eq128(h, l, maxH, maxL)))
+			}
+			vfAssert(vfNHInstalled(s.masterRIB, DefaultNetworkInstanceName, idx) == legit, "C04:rib-changed-iff-sent-by-the-true-primary-with-the-highest-id")
+			continue
+		}
+		vfAssume(vfOr(h != 0, l != 0))
+		_, err := s.runElection(x, &spb.Uint128{High: h, Low: l})
+		vfAssert(err == nil, "C04:valid-announcement-accepted")
+		lastSet[x], lastH[x], lastL[x] = true, h, l
+		wins := vfOr(!has, ge128(h, l, maxH, maxL))
+		maxH, maxL = vfIte64(wins, h, maxH), vfIte64(wins, l, maxL)
+		primary = vfIteStr(wins, x, primary)
+		has = true
+	}
+	if ops > 0 {
+		vfReach("with-operation")
+	}
+	vfReach("end")
+}
+
+func VfC04_mixed4() { vfC04Mixed(4) }
+func VfC04_mixed5() { vfC04Mixed(5) }
 func VfC04_history2() { vfC04History(2) }
 func VfC04_history3() { vfC04History(3) }
